@@ -3,6 +3,8 @@ package props
 // C04 — every signed endpoint acts only on requests signed by the identity they name.
 
 import (
+	"sort"
+	"reflect"
 	"context"
 	"encoding/base64"
 	"encoding/hex"
@@ -138,6 +140,18 @@ func (r c04Req) id() string {
 		return r.who.addr
 	}
 	return r.who.nodeID
+}
+
+// c04SparseIdent signs the sparse follow-up requests (an identity of its own, so that its nonces are in nobody's way).
+var c04SparseIdent = mkIdent("c04-sparse")
+
+func sortedRawKeys(m map[string]json.RawMessage) []string {
+	var ks []string
+	for k := range m {
+		ks = append(ks, k)
+	}
+	sort.Strings(ks)
+	return ks
 }
 
 func genC04Req(rt *rapid.T, endpoint string, nodeWho, walletWho ident) c04Req {
@@ -689,6 +703,40 @@ func TestC04SignedEndpoints(t *testing.T) {
 					if gerr := f.submit(r, gsig, ownerID, nonce, r.arg, viaRPC); classifyErr(gerr).Kind == "verify" {
 						rt.Fatalf("after a refused %s (alteration %q %s) naming %s with nonce %d, the identity's own correctly signed request with that nonce is refused by verification: %v (the refused request used up the nonce)", r.method, alt, detail, nodeName(ownerID), nonce, gerr)
 					}
+				}
+			}
+			// A follow-up of the same method that leaves members out on the wire (what a client written in another
+			// language, or one that omits empty members, sends): the pool must see exactly the members of THIS request -
+			// absent ones are zero, whatever the request before it (accepted or refused, from anybody) carried. The
+			// sender signs what it sent: the request as decoded from its own wire form.
+			if viaRPC && !r.wallet && endpoint != "updateLegacy" && r.arg != nil && rapid.IntRange(0, 3).Draw(rt, "sparseFollowUp") == 0 {
+				r2 := genC04Req(rt, endpoint, c04SparseIdent, walletWho)
+				full, _ := json.Marshal(r2.arg)
+				var members map[string]json.RawMessage
+				if json.Unmarshal(full, &members) == nil && len(members) > 0 {
+					var dropped []string
+					for _, k := range sortedRawKeys(members) {
+						if rapid.Bool().Draw(rt, "drop:"+k) {
+							delete(members, k)
+							dropped = append(dropped, k)
+						}
+					}
+					sparse, _ := json.Marshal(members)
+					fresh := reflect.New(reflect.TypeOf(r2.arg))
+					if err := json.Unmarshal(sparse, fresh.Interface()); err != nil {
+						rt.Fatalf("harness: %v", err)
+					}
+					asSent := fresh.Elem().Interface()
+					n2 := f.s.nonce(c04SparseIdent.nodeID)
+					sig2 := mustSign(c04SparseIdent.key, r2.method, c04SparseIdent.nodeID, n2, asSent)
+					ctx, cancel := context.WithTimeout(context.Background(), 30*time.Second)
+					var out json.RawMessage
+					err2 := f.s.agents[f.client].lastConn().c.agentSide.Call(ctx, &out, r2.method, sig2, c04SparseIdent.nodeID, n2, json.RawMessage(sparse))
+					cancel()
+					if classifyErr(err2).Kind == "verify" {
+						rt.Fatalf("correctly signed %s that leaves the members %v out on the wire was refused by verification: %v\nwire form: %s\nthe request before it on this method: %s", r2.method, dropped, err2, sparse, pj)
+					}
+					detail += " +sparse"
 				}
 			}
 			sigKey := fmt.Sprintf("%s|%s|%s|%s|%s", endpoint, alt, detail, transport, outcome)
